@@ -17,7 +17,7 @@ from .. import tlc
 from ..core import Machinery
 from ..drivers import mirror_drv as drv
 
-ACTIONS = ["NDeliver", "NSkip", "NVanish", "Crash", "Restart", "EndHandler", "MkDirs", "Cmp", "RmTmp", "CopyBegin", "CopyEnd",
+ACTIONS = ["NDeliver", "NSkip", "NVanish", "NCrash", "Restart", "EndHandler", "MkDirs", "Cmp", "RmTmp", "CopyBegin", "CopyEnd",
            "Link", "MvRename", "Unlink", "Rename", "RmDirSrc", "RbRemove"]
 QUICK_WITNESSES = ["NoCrashBetweenCopyAndRename", "NoHalfCopyAfterCrash", "NoStaleEvent", "NeverTwoCopies", "NoExpiry"]
 MORE_WITNESSES = ["NoRepeatedEvent", "NoStuckTmp", "NoExpiryOnOlderEvent", "NoRecopyOverHalf", "NeverQuiescentAfterCrash"]
@@ -174,6 +174,86 @@ def replay_behaviour(digital_rf, rec, work, name, beh):
 
 
 # ---------------------------------------------------------------------------------------------------
+# binding self-check: corrupted copies of accepted traces must be rejected with the right clause
+# ---------------------------------------------------------------------------------------------------
+def corrupted_traces(scen, verdicts):
+    import copy
+
+    ok = [s for s, v in zip(scen, verdicts) if v["v"] == "ACCEPT" and not s["crash_at"]]
+    out = []
+
+    def pick(pred):
+        for s in ok:
+            if pred(s):
+                return copy.deepcopy(s)
+        return None
+
+    def first_op(s, fn, a_tree, b_cls):
+        for i, e in enumerate(s["events"]):
+            if e["ev"] == "op" and e["fn"] == fn and e["res"] == "ok" and e["a"][0] == a_tree and e["b"][1] == b_cls:
+                return i, e
+        return None, None
+
+    # 1. the destination file is incomplete right after the publishing rename
+    s = pick(lambda s: s["opts"]["method"] == "copy")
+    if s:
+        i, e = first_op(s, "rename", "dst", "final")
+        if e:
+            e["dstF"][e["b"][2] - 1] = 2
+            out.append((s, "C17-Staged-final-name-with-incomplete-content", "content of the final name after rename set to 'partial'"))
+    # 2. the second half of a data copy is missing from the log: the rename then comes while the copy is in progress
+    s = pick(lambda s: s["opts"]["method"] == "copy")
+    if s:
+        i, e = first_op(s, "copye", "src", "tmp")
+        if e:
+            del s["events"][i]
+            out.append((s, "C17-operation-outside-the-handler-program-rename", "copye event deleted"))
+    # 3. a moved data file is nowhere after the move
+    s = pick(lambda s: s["opts"]["method"] == "move" and not s["opts"].get("exdev"))
+    if s:
+        i, e = first_op(s, "rename", "src", "tmp")
+        if e:
+            e["dstT"][e["b"][2] - 1] = 0
+            out.append((s, "C17-NoLossMove-data-file-intact-nowhere", "tmp. name after the moving rename set to 'absent'"))
+    # 4. the newest metadata file is gone from the source at the end; 5. a selected file is missing in the destination
+    s = pick(lambda s: s["opts"]["method"] == "move" and "md" in s["cfg"]["kind"])
+    if s:
+        c = s["cfg"]
+        md = [f for f in range(len(c["kind"])) if c["kind"][f] == "md"]
+        newest = max(md, key=lambda f: (c["grp"][f] == c["grp"][md[0]], c["key"][f]))
+        s["events"][-1]["src"][newest] = 0
+        out.append((s, "C17-NewestMdStays", "newest metadata file set to 'absent' in the source at quiescence"))
+    s = pick(lambda s: all(s["cfg"]["sel"]))
+    if s:
+        s["events"][-1]["dstF"][len(s["cfg"]["kind"]) - 1] = 0
+        out.append((s, "C17-Fidelity-selected-file-missing-or-different-in-destination", "a destination file set to 'absent' at quiescence"))
+    # 6. the reader on the destination returns other data
+    s = pick(lambda s: s["events"][-1].get("has_rd") and s["events"][-1]["rd"] and len(s["events"][-1]["rd"][0]) == 5)
+    if s:
+        s["events"][-1]["rd"][0][4] = "0" * 40
+        out.append((s, "C17-Fidelity-reader-on-destination-differs-from-source-truth", "digest of the data read from the destination changed"))
+    return out
+
+
+def selfcheck(ctx, scen, verdicts):
+    cases = corrupted_traces(scen, verdicts)
+    if len(cases) < 4:
+        return
+    for i, (s, _, _) in enumerate(cases):
+        s["name"] = "corrupted%d" % i
+    try:
+        vs, st = tlc.validate_traces("MirrorTrace", "MirrorTrace.cfg", [c[0] for c in cases], ctx.work, shards=4, tag="selfcheck")
+    except tlc.TLCError as e:
+        raise Machinery(str(e))
+    res = []
+    for (s, clause, what), v in zip(cases, vs):
+        if v["v"] != "REJECT" or clause not in v["why"]:
+            raise Machinery("binding self-check: a corrupted trace (%s) was not rejected with %s but %s" % (what, clause, v))
+        res.append({"corruption": what, "rejected_with": v["why"], "at_event": v["line"]})
+    ctx.extra["corrupted_traces_rejected"] = res
+
+
+# ---------------------------------------------------------------------------------------------------
 def run(ctx):
     q = ctx.quick
     # ---- E1 -------------------------------------------------------------------
@@ -183,7 +263,7 @@ def run(ctx):
     else:
         ctx.model_check("MCMirror", "MCMirror_thorough.cfg", coverage=False, timeout=3000)
     ctx.model_check("MCMirror", "MCMirror_cov.cfg", required_actions=ACTIONS, tag="cov", timeout=600)
-    for w in QUICK_WITNESSES + ([] if q else MORE_WITNESSES):
+    for w in QUICK_WITNESSES + MORE_WITNESSES:
         ctx.model_check("MCMirror", "MCMirror_W_%s.cfg" % w, expect_violated=("W_" + w,), coverage=False, tag="W_" + w,
                         timeout=900)
 
@@ -294,4 +374,5 @@ def run(ctx):
     for s in (scen[:1] + scen[nsim:nsim + 1] + [x for x in scen if x["crash_at"]][:1]):
         ctx.sample({"name": s["name"], "desc": s["desc"], "files": s["files"], "opts": s["opts"], "crash_at": s["crash_at"],
                     "events": [{k: v for k, v in e.items() if k != "srcT"} for e in s["events"][:14]]})
-    ctx.validate("MirrorTrace", "MirrorTrace.cfg", scen, label="mirror history", relevant=relevant)
+    verdicts = ctx.validate("MirrorTrace", "MirrorTrace.cfg", scen, label="mirror history", relevant=relevant)
+    selfcheck(ctx, scen, verdicts)
